@@ -124,8 +124,20 @@ def run(m: Model, r: Report, tier: str) -> None:
     r.check(len(brk) == 1 and first_read_line < brk[0].lineno < strip_line, "R4", f"{hc.qualname}#eof-ends-loop",
             "the raw line must be tested for b'' (end-of-stream) right after readline and before stripping: readline returns b'' immediately at EOF, "
             "so a loop that continues instead spins forever and starves every other client", loc=hc.loc)
+    # no `continue` before the line of this iteration was read (a continue after the exchange - e.g. "nothing to write" - starts the next read)
     conts = [n for n in ast.walk(loops[0]) if isinstance(n, ast.Continue)] if loops else []
-    r.check(not conts, "R4", f"{hc.qualname}#no-continue", "the server loop must not `continue` without consuming input", loc=hc.loc)
+    from sa.cfg import CFG as _CFG19
+    g19 = _CFG19(hc.node)
+    heads19 = {n.id for n in g19.nodes.values() if n.kind == "loop" and loops and n.ast is loops[0]}
+    reads19 = {n.id for n in g19.nodes.values() if n.ast is not None and n.kind in ("stmt", "cond") and ".readline()" in ast.unparse(n.ast)}
+    early_c = []
+    for c_ in conts:
+        for nd in g19.nodes_of(c_):
+            # every path from the loop head to this continue passes the read
+            for h_ in heads19:
+                if not g19.must_pass(h_, reads19, {nd.id})[0]:
+                    early_c.append(c_.lineno)
+    r.check(not early_c, "R4", f"{hc.qualname}#no-continue", f"the server loop can `continue` (line(s) {sorted(set(early_c))}) without consuming input", loc=hc.loc)
     r.check(m.has(cr, "binascii.unhexlify(d)"), "R4", f"{cr.qualname}#eof-is-empty", "client EOF must surface as b''", loc=cr.loc)
 
     # closing flushes: messages already accepted by write() are still delivered (graceful close + wait_closed, never abort)
@@ -169,8 +181,8 @@ def run(m: Model, r: Report, tier: str) -> None:
                           and any(isinstance(x, ast.Name) and x.id == xv for a in c.args for x in ast.walk(a))]
                 guarded = []
                 for c in writes:
-                    ok_g = any(isinstance(i, ast.If) and ast.unparse(i.test) == f"{xv} is not None" and any(c is x for b_ in i.body for x in ast.walk(b_))
-                               for i in ast.walk(f.node))
+                    from sa.util import path_condition as _pc19, norm_conds as _nc19
+                    ok_g = (f"{xv} is None", False) in _nc19(_pc19(f.node, c))
                     guarded.append(ok_g)
                 r.check(bool(writes) and all(guarded), "R6", f"{f.qualname}#writes-iff-reply",
                         f"the reply {xv} of handle_request must be written exactly when it `is not None`", loc=f"{f.module.relpath}:{n.lineno}")
